@@ -406,7 +406,8 @@ PROPS["C04"] = {
                    "c04::c04_object_words_and_sizes", "c04::c04_vtbl_only_in_declaration_order",
                    "c04::c04_group_alias_name_order", "c04::c04_object_with_context_words",
                    "c04::c04_vtbl_provided_methods_have_slots", "c04::c04_overaligned_type_argument",
-                   "c08x::c08x_mandatory_and_optional_word_order",
+                   "c08x::c08x_mandatory_and_optional_word_order", "c08x::c08x_external_and_local_traits_in_one_list",
+                   "c08::c08_owned_list_of_four_argument_registration",
                    "c04::c04_container_order_with_context_and_ret_tmp", "c04::c04_noncontiguous_cast_and_ret_tmp_order",
                    "c04::c04_negative_twin"],
          "timeout": 900},
@@ -481,6 +482,7 @@ PROPS["C08"] = {
          "quick": ["c08::c08_g3_box", "c08::c08_g3_mut", "c08::c08_ref_container", "c08::c08_impl_types_g3", "c08::c08_aliased_generic_members",
                    "c08::c08_owned_list_of_four_argument_registration",
                    "c08x::c08x_mandatory_and_optional_word_order", "c08x::c08x_casts_dispatch_to_the_right_trait",
+                   "c08x::c08x_external_and_local_traits_in_one_list",
                    "c08::c08_negative_twin"],
          "thorough_adds": ["c08::c08_g4_box", "c08::c08_g4_mut"],
          "timeout": 3000},
